@@ -333,6 +333,21 @@ class Graph:
         self.fsdefs = res.records("FSDEF")
         return self
 
+    def dump(self, path):
+        with open(path, "w") as f:
+            json.dump({"key": self.key, "obs": {str(k): v for k, v in self.obs.items()},
+                       "out": {str(k): v for k, v in self.out.items()}}, f)
+
+    @staticmethod
+    def undump(path):
+        g = Graph()
+        with open(path) as f:
+            d = json.load(f)
+        g.key = d["key"]
+        g.obs = {int(k): v for k, v in d["obs"].items()}
+        g.out = {int(k): [tuple(e) for e in v] for k, v in d["out"].items()}
+        return g
+
     def binding(self, sid, c):
         s = self.key[sid]["s"][c["i"]]
         if s == []:
@@ -353,7 +368,7 @@ def init_id(g, interps):
 class Walker:
     """Executes a plan tree on forked copies of live interpreters.
 
-    plan(sid, depth, path_cmds) -> list of (cmd, outcome, post sid, expand)
+    plan(sid, depth, path, tag) -> list of (cmd, outcome, post sid, expand, tag')
     Every executed edge is compared with the spec; findings go to a shared
     append-only file as JSON lines."""
 
@@ -381,7 +396,7 @@ class Walker:
                 self.sem.acquire()
                 n = self.check_state(sess, root_sid, [], None)
                 self.emit({"t": "n", "edges": 0, "evals": n})
-                self.children(sess, root_sid, 0, [], None)
+                self.children(sess, root_sid, 0, [], None, None)
             except BaseException as e:  # noqa: BLE001
                 import traceback
                 try:
@@ -394,18 +409,18 @@ class Walker:
         if st != 0:
             raise MachineryError(f"walker root exited with status {st}")
 
-    def children(self, sess, sid, depth, path, prev):
+    def children(self, sess, sid, depth, path, prev, tag):
         """Called holding a token; releases it, forks the children, waits."""
-        items = self.plan(sid, depth, path)
+        items = self.plan(sid, depth, path, tag)
         self.sem.release()
         pids = []
-        for (c, o, q, expand) in items:
+        for (c, o, q, expand, tag2) in items:
             self.sem.acquire()
             pid = os.fork()
             if pid == 0:
                 code = 0
                 try:
-                    self.node(sess, sid, c, o, q, expand, depth, path, prev)
+                    self.node(sess, sid, c, o, q, expand, depth, path, prev, tag2)
                 except BaseException:  # noqa: BLE001
                     import traceback
                     try:
@@ -424,7 +439,7 @@ class Walker:
         if bad:
             self.emit({"t": "crash", "what": f"{bad} child processes failed below {path}"})
 
-    def node(self, sess, sid, c, o, q, expand, depth, path, prev):
+    def node(self, sess, sid, c, o, q, expand, depth, path, prev, tag):
         g = self.g
         b = g.binding(sid, c)
         src = cmd_source(c, b)
@@ -447,7 +462,7 @@ class Walker:
         n = 1 + self.check_state(sess, q, path2, findings)
         self.emit({"t": "n", "edges": 1, "evals": n})
         if expand:
-            self.children(sess, q, depth + 1, path2, (c, raw))
+            self.children(sess, q, depth + 1, path2, (c, raw), tag)
         else:
             self.sem.release()
 
@@ -478,7 +493,10 @@ def collect(outpath):
 
 # ------------------------------------------------------------------- plans
 def cover_plan(g, root):
-    """Spanning tree (BFS: shortest paths) + every other edge as a leaf."""
+    """Spanning tree (BFS: shortest paths) + every other edge as a leaf.  A
+    failing command that is not a tree edge is followed by every command of
+    its target state once (the spec says the state is unchanged; whatever the
+    failed call left behind in the implementation must not show)."""
     tree = set()
     seen = {root}
     queue = [root]
@@ -489,19 +507,27 @@ def cover_plan(g, root):
                 seen.add(q)
                 tree.add((s, k))
                 queue.append(q)
-    # every state is visited as a tree node exactly once; a non-tree edge is
-    # executed from the tree copy of its source and not expanded.
 
-    def plan(sid, depth, path):
-        return [(c, o, q, (sid, k) in tree) for k, (c, o, q) in enumerate(g.out[sid])]
+    def plan(sid, depth, path, tag):
+        if tag == "after-failure":
+            return [(c, o, q, False, None) for (c, o, q) in g.out[sid]]
+        items = []
+        for k, (c, o, q) in enumerate(g.out[sid]):
+            if (sid, k) in tree:
+                items.append((c, o, q, True, None))
+            elif o["cls"] != "val":
+                items.append((c, o, q, True, "after-failure"))
+            else:
+                items.append((c, o, q, False, None))
+        return items
     return plan, len(seen)
 
 
 def depth_plan(g, maxlen):
-    def plan(sid, depth, path):
+    def plan(sid, depth, path, tag):
         if depth >= maxlen:
             return []
-        return [(c, o, q, depth + 1 < maxlen) for (c, o, q) in g.out[sid]]
+        return [(c, o, q, depth + 1 < maxlen, None) for (c, o, q) in g.out[sid]]
     return plan
 
 
@@ -530,12 +556,12 @@ def walks_plan(g, root, rng, nwalks, maxlen):
             node = node.setdefault(k, {})
             s = outs[k][2]
 
-    def plan(sid, depth, path):
+    def plan(sid, depth, path, tag):
         node, s = trie, root
         for p in path:
             k = next(j for j, e in enumerate(g.out[s]) if e[0] == p[0])
             node, s = node[k], g.out[s][k][2]
-        return [(g.out[sid][k][0], g.out[sid][k][1], g.out[sid][k][2], bool(node[k]))
+        return [(g.out[sid][k][0], g.out[sid][k][1], g.out[sid][k][2], bool(node[k]), None)
                 for k in sorted(node)]
     return plan
 
@@ -581,6 +607,36 @@ def check_pinned(run):
     return m
 
 
+def run_walk_job(job, d):
+    """The walk runs in a fresh, small process: forking it is cheap."""
+    import subprocess
+    jpath = os.path.join(d, "job.json")
+    with open(jpath, "w") as f:
+        json.dump(job, f)
+    env = dict(os.environ)
+    p = subprocess.run([sys.executable, "-m", "harness.c10", jpath], env=env,
+                       cwd=os.path.dirname(os.path.dirname(os.path.abspath(__file__))),
+                       stdout=subprocess.PIPE, stderr=subprocess.STDOUT, text=True, timeout=6000)
+    if p.returncode != 0:
+        raise MachineryError("walker failed: " + p.stdout[-2000:])
+
+
+def walk_main(jpath):
+    with open(jpath) as f:
+        job = json.load(f)
+    g = Graph.undump(job["graph"])
+    rng = random.Random(job["seed"])
+    mode, params, root = job["mode"], job["params"], job["root"]
+    if mode == "cover":
+        plan, _ = cover_plan(g, root)
+    elif mode == "depth":
+        plan = depth_plan(g, params["maxlen"])
+    else:
+        plan = walks_plan(g, root, rng, params["nwalks"], params["maxlen"])
+    w = Walker(g, job["interps"], job["moddir"], plan, job["loadcap"], None, job["out"])
+    w.start(root)
+
+
 def run_graph(run, cfg, interps, label, mode, rng, params):
     """One TLC run of Session.tla + one walk. mode: cover | depth | walks."""
     res = run_tlc("Session", cfg, coverage=True, timeout=3000)
@@ -599,14 +655,11 @@ def run_graph(run, cfg, interps, label, mode, rng, params):
         os.mkdir(moddir)
         materialise(fsdef, moddir)
         outpath = os.path.join(d, "findings.ndjson")
-        if mode == "cover":
-            plan, nstates = cover_plan(g, root)
-        elif mode == "depth":
-            plan = depth_plan(g, params["maxlen"])
-        else:
-            plan = walks_plan(g, root, rng, params["nwalks"], params["maxlen"])
-        w = Walker(g, interps, moddir, plan, params.get("loadcap", 1), C10_VERDICT, outpath)
-        w.start(root)
+        job = {"graph": os.path.join(d, "graph.json"), "interps": interps, "moddir": moddir,
+               "root": root, "mode": mode, "params": params, "seed": rng.randrange(1 << 30),
+               "loadcap": params.get("loadcap", 1), "out": outpath}
+        g.dump(job["graph"])
+        run_walk_job(job, d)
         recs = collect(outpath)
     finally:
         shutil.rmtree(d, ignore_errors=True)
@@ -716,3 +769,7 @@ def replay_history(run, case, verdict_cats, prefix):
 
 def replay(run, case):
     replay_history(run, case, C10_VERDICT, "c10")
+
+
+if __name__ == "__main__":
+    walk_main(sys.argv[1])
